@@ -1112,7 +1112,59 @@ func c05r7(rc *core.RC) {
 				return true
 			})
 			if !decided {
-				rc.Unknown(key, fd.Pos(), "neither a table test nor a byte switch guarding `cursor++` was recognised")
+				// a classification written as an expression over one byte variable (c == ' ' || c-'\t' <= '\r'-'\t'):
+				// fold it for all 256 values
+				ast.Inspect(fd.Body, func(m ast.Node) bool {
+					if decided {
+						return false
+					}
+					var cond ast.Expr
+					switch x := m.(type) {
+					case *ast.ForStmt:
+						if x.Cond != nil && advances(x.Body) {
+							cond = x.Cond
+						}
+					case *ast.IfStmt:
+						if advances(x.Body) {
+							cond = x.Cond
+						}
+					}
+					if cond == nil {
+						return true
+					}
+					var bv types.Object
+					many := false
+					ast.Inspect(cond, func(k ast.Node) bool {
+						if id, ok := k.(*ast.Ident); ok {
+							if o, isVar := info.Uses[id].(*types.Var); isVar && o.Parent() != o.Pkg().Scope() {
+								if b, isBasic := o.Type().Underlying().(*types.Basic); isBasic && b.Kind() == types.Uint8 {
+									if bv != nil && bv != o {
+										many = true
+									}
+									bv = o
+								}
+							}
+						}
+						return true
+					})
+					if bv == nil || many {
+						return true
+					}
+					var got [256]bool
+					for b := 0; b < 256; b++ {
+						v, ok := (&core.BytePred{P: p}).EvalBool(info, cond, core.Bind(bv, int64(b)))
+						if !ok {
+							return true
+						}
+						got[b] = v
+					}
+					skipped = got
+					decided = true
+					return false
+				})
+			}
+			if !decided {
+				rc.Unknown(key, fd.Pos(), "neither a table test, a byte switch nor a foldable expression over one byte variable guarding `cursor++` was recognised")
 				continue
 			}
 			var extra, missing []int
@@ -1452,4 +1504,89 @@ func quoteGuardBefore(info *types.Info, body *ast.BlockStmt, stmt ast.Stmt) bool
 		}
 	}
 	return false
+}
+
+// ---- C05.R11 a nested decode of a sub-text must consume exactly that text ----
+
+// Where a decoder runs another decoder over a text of its own from cursor 0 (the payload of a ,string field, a
+// non-string map key), the end cursor that comes back has to be compared with the *length* of that text, with an
+// error for any difference. Looking at the byte under the end cursor is not the same test: the unescaped payload can
+// contain a NUL byte (\u0000), at which the number scanners stop.
+func c05r11(rc *core.RC) {
+	p := rc.P
+	n := 0
+	for _, fd := range p.Funcs("decoder") {
+		if fd.Body == nil {
+			continue
+		}
+		info := p.Info(fd)
+		fn := p.FuncName(fd)
+		k := 0
+		ast.Inspect(fd.Body, func(m ast.Node) bool {
+			as, ok := m.(*ast.AssignStmt)
+			if !ok || len(as.Rhs) != 1 || len(as.Lhs) != 2 {
+				return true
+			}
+			call, _ := core.Unparen(as.Rhs[0]).(*ast.CallExpr)
+			if call == nil || len(call.Args) != 4 {
+				return true
+			}
+			sel, isSel := core.Unparen(call.Fun).(*ast.SelectorExpr)
+			if !isSel || sel.Sel.Name != "Decode" {
+				return true
+			}
+			if v, isC := core.ConstInt(info, call.Args[1]); !isC || v != 0 {
+				return true
+			}
+			end := core.ObjOf(info, as.Lhs[0])
+			if end == nil {
+				return true
+			}
+			n++
+			k++
+			rc.Touch(fn)
+			key := fmt.Sprintf("%s/sub-text-decode#%d end-compared-with-length", fn, k)
+			found := false
+			ast.Inspect(fd.Body, func(x ast.Node) bool {
+				ifs, isIf := x.(*ast.IfStmt)
+				if !isIf || found {
+					return true
+				}
+				be, isBin := core.Unparen(ifs.Cond).(*ast.BinaryExpr)
+				if !isBin || (be.Op != token.NEQ && be.Op != token.LSS && be.Op != token.GTR) {
+					return true
+				}
+				var other ast.Expr
+				switch {
+				case core.ObjOf(info, be.X) == end:
+					other = be.Y
+				case core.ObjOf(info, be.Y) == end:
+					other = be.X
+				default:
+					return true
+				}
+				hasLen := false
+				ast.Inspect(other, func(y ast.Node) bool {
+					if c, isCall := y.(*ast.CallExpr); isCall && core.IsBuiltin(info, c, "len") {
+						hasLen = true
+					}
+					return true
+				})
+				if !hasLen {
+					return true
+				}
+				for _, st := range ifs.Body.List {
+					if r, isRet := st.(*ast.ReturnStmt); isRet && core.ReturnIsError(info, r) {
+						found = true
+					}
+				}
+				return true
+			})
+			rc.Check(found, key, call.Pos(), "the end cursor of the nested decode (%s) is compared with the length of the text it was run on, and a difference is an error (the byte under the cursor is no substitute: the payload \"12\\u0000.5\" holds a NUL at which the integer scanner stops, so {\"a\":\"12\\u0000.5\"} would store 12 into a ,string int)", end.Name())
+			return true
+		})
+	}
+	if n < 2 {
+		rc.Unknown("decoder/sub-text-decodes", token.NoPos, "found %d nested Decode calls from cursor 0 (confirmed: wrappedStringDecoder.Decode and DecodeStream)", n)
+	}
 }
